@@ -246,6 +246,20 @@ func runCase(c *Case, sum *vh.Summary, cw *vh.CaseWriter, verbose bool) caseInfo
 		info.Hist = append(info.Hist, "rejected-and-accepted")
 	}
 	info.Hist = append(info.Hist, c.Target.Classify()...)
+	if c.Format == "xml" {
+		if strings.Contains(c.Text, `=""`) {
+			info.Hist = append(info.Hist, "xml:attribute-with-empty-value")
+		}
+		if strings.Contains(c.Text, `="`) {
+			info.Hist = append(info.Hist, "xml:attribute-loop-exercised")
+		}
+		if strings.Count(c.Text, "xmlns:") > 1 {
+			info.Hist = append(info.Hist, "xml:namespace-rebound-on-inner-element")
+		}
+	}
+	if len(c.Target.Filters) > 1 {
+		info.Hist = append(info.Hist, "split:several-trailing-filters")
+	}
 
 	// ---- the Coq case: same tokens, same target, observed deliveries ----
 	fin := "ObsEOF"
